@@ -286,14 +286,62 @@ func c18(p *P) {
 	// ---- R4 pruning
 	if fn := p.fn("C18.R4", "chainexchange.PubSubChainExchange.RemoveChainsByInstance"); fn != nil {
 		seen := map[string]bool{}
-		for _, cs := range callsTo(fn, false, "delete") {
-			m := cs.Arg(0)
-			seen[m] = true
-			p.guarded("C18.R4", fn, []Sink{{cs.Instr, "delete from " + m}}, cmpRel("i < instance", `^next\(range\(`+regexpQuote(m)+`\)\)#1$`, `^\$2$`, RelEQ), cmpRel("i < instance", `^next\(range\(`+regexpQuote(m)+`\)\)#1$`, `^\$2$`, RelGT))
-			r.Check(strings.HasPrefix(cs.Arg(1), "next(range("+m+"))"), "C18.R4", "RemoveChainsByInstance: deletes the iterated key of "+m, p.c.InstrPos(cs.Instr), cs.Arg(1), "deletes key "+cs.Arg(1)+" from "+m)
-			p.fullRangeLoop("C18.R4", "RemoveChainsByInstance: scans every instance of "+m, cs.Instr, nil)
+		// prune analyses the delete sites of f: each must delete the iterated key of a map, only when key < bound,
+		// scanning the whole map. Returns (map expression, bound expression) pairs in f's own terms.
+		var prune func(f *ssa.Function, label string) [][2]string
+		prune = func(f *ssa.Function, label string) [][2]string {
+			var out [][2]string
+			for _, cs := range callsTo(f, false, "delete") {
+				m := cs.Arg(0)
+				keyRe := `^next\(range\(` + regexpQuote(m) + `\)\)#1$`
+				// which value bounds the deleted keys? try every integer parameter
+				bound := ""
+				for i, prm := range f.Params {
+					if !isInteger(prm.Type()) {
+						continue
+					}
+					b := fmt.Sprintf(`^\$%d$`, i)
+					eq, gt := cmpRel("", keyRe, b, RelEQ).Match(f), cmpRel("", keyRe, b, RelGT).Match(f)
+					if len(eq) == 0 {
+						continue
+					}
+					s1, s2 := RunSCCP(f, eq), RunSCCP(f, gt)
+					if !s1.Reachable(cs.Instr) && !s2.Reachable(cs.Instr) {
+						bound = fmt.Sprintf("$%d", i)
+					}
+				}
+				r.Check(bound != "", "C18.R4", label+": delete from "+m+" only for keys strictly below the bound", p.c.InstrPos(cs.Instr), "unreachable when key ≥ "+bound, "an instance at or above the bound can be pruned (or no bound check at all)")
+				r.Check(strings.HasPrefix(cs.Arg(1), "next(range("+m+"))"), "C18.R4", label+": deletes the iterated key of "+m, p.c.InstrPos(cs.Instr), cs.Arg(1), "deletes key "+cs.Arg(1)+" from "+m)
+				p.fullRangeLoop("C18.R4", label+": scans every instance of "+m, cs.Instr, nil)
+				out = append(out, [2]string{m, bound})
+			}
+			return out
 		}
-		r.Check(seen["$0.chainsWanted"] && seen["$0.chainsDiscovered"], "C18.R4", "RemoveChainsByInstance: prunes both maps", p.c.Pos(fn.Pos()), "wanted and discovered", fmt.Sprintf("pruned maps: %v", seen))
+		for _, mb := range prune(fn, "RemoveChainsByInstance") {
+			if mb[1] == "$2" {
+				seen[mb[0]] = true
+			}
+		}
+		// pruning delegated to a shared helper: map and bound are arguments
+		for _, cs := range callSites(fn, false) {
+			h := cs.Common.StaticCallee()
+			if h == nil || h.Blocks == nil || h.Pkg == nil || !strings.HasPrefix(h.Pkg.Pkg.Path(), modPath+"/chainexchange") || helperSite[h] != nil {
+				continue
+			}
+			if len(callsTo(h, false, "delete")) == 0 {
+				continue
+			}
+			for _, mb := range prune(h, funcName(h)) {
+				var mi, bi = -1, -1
+				fmt.Sscanf(mb[0], "$%d", &mi)
+				fmt.Sscanf(mb[1], "$%d", &bi)
+				av := cs.Common.Args
+				if mi >= 0 && bi >= 0 && mi < len(av) && bi < len(av) && canon(av[bi]) == "$2" {
+					seen[canon(av[mi])] = true
+				}
+			}
+		}
+		r.Check(seen["$0.chainsWanted"] && seen["$0.chainsDiscovered"], "C18.R4", "RemoveChainsByInstance: prunes both maps below the given instance", p.c.Pos(fn.Pos()), "wanted and discovered", fmt.Sprintf("pruned maps (with the instance parameter as bound): %v", seen))
 	}
 
 	// ---- R5 locks
